@@ -1,4 +1,4 @@
-import LanceModel.C40.ProjLemmas
+import LanceModel.C40.MergeSpecLemmas
 /-
 C40 — Arrow helper transformations preserve values.
 
@@ -34,10 +34,14 @@ theorem deep_copy_sliced_spec (a : Arr) (hw : wf a = true) : logical (deepCopySl
   logical_deepCopySliced a hw
 
 /-- … and of a slice of an array: the copy of `a.slice(o, l)` is the window of `a` -/
-theorem deep_copy_sliced_of_slice (a : Arr) (o l : Nat) (hw : wf a = true) (h : o + l ≤ a.len)
-    (hws : wf (slice a o l) = true) :
+theorem deep_copy_sliced_of_slice (a : Arr) (o l : Nat) (hw : wf a = true) (h : o + l ≤ a.len) :
     logical (deepCopySliced (slice a o l)) = sub (logical a) o (o + l) := by
-  rw [logical_deepCopySliced _ hws, logical_slice a o l hw h]
+  rw [logical_deepCopySliced _ (wf_slice a o l hw h), logical_slice a o l hw h]
+
+/-- slicing keeps an array well-formed (so every theorem here applies to slices of slices) -/
+theorem slice_wf (a : Arr) (o l : Nat) (hw : wf a = true) (h : o + l ≤ a.len) :
+    wf (slice a o l) = true ∧ (slice a o l).len = l :=
+  ⟨wf_slice a o l hw h, len_slice a o l⟩
 
 /-! ### list.rs -/
 
@@ -96,9 +100,7 @@ theorem pushdown_nulls_cover (len : Nat) (n : Nulls) (names : List String) (cols
 
 /-! ### lib.rs: merge / merge_with_schema — the validity rules
 
-The full statement for `merge` is `merge_full` below (row-wise `mergeRow`).  Proved so far: the three rules it is made of.
-The recursion of `mergeStruct` calls itself on `adjust`ed children, so `adjust_child_validity_spec` +
-`merge_validity` apply at every depth. -/
+The three rules `merge` / `merge_with_schema` are made of, then `merge_spec`: the full row-wise statement for `merge`. -/
 
 /-- `adjust_child_validity`: a child row under a NULL parent row is NULL; under a valid parent row it is unchanged -/
 theorem adjust_child_validity_spec (c : Arr) (p : Option Nulls) (i : Nat) (hi : i < c.len) :
@@ -121,15 +123,20 @@ theorem merge_with_schema_validity (fuel : Nat) (l r m : Arr) (fn : List String)
     m.len = l.len ∧ l.len = r.len ∧ ∀ i, i < l.len → validAt m.nulls i = (validAt l.nulls i || validAt r.nulls i) :=
   mergeWS_validity fuel l r m fn ft h
 
-/-- FULL statement for `merge` (not yet proved in Lean; evaluated on the real code by the harness oracle `spec_merge` on
-    every run): the merged batch is the row-wise `mergeRow` of the two batches -/
-def merge_full : Prop :=
-  ∀ (llen : Nat) (ln : List String) (lc : List Arr) (rlen : Nat) (rn : List String) (rc : List Arr) (m : Arr),
-    wf (.struct llen none ln lc) = true → wf (.struct rlen none rn rc) = true →
-    mergeBatch (.struct llen none ln lc) (.struct rlen none rn rc) = .ok m →
+/-- `RecordBatchExt::merge` at full strength: the merged batch is, row by row and at every nesting depth, `mergeRow` of
+    the two input rows: NULL iff NULL on both sides; the left fields in order (a field of a NULL struct row counts as NULL;
+    struct fields present on both sides merged recursively), then the right-only fields.  `uniq`: field names are unique
+    within each struct (the specification addresses fields by name).  Region: batches for which the model's `merge` returns
+    a result, i.e. no two List<Struct> columns of different struct types meet (`unmodelled`). -/
+theorem merge_spec (llen : Nat) (lnulls : Option Nulls) (ln : List String) (lc : List Arr)
+    (rlen : Nat) (rnulls : Option Nulls) (rn : List String) (rc : List Arr) (m : Arr)
+    (hwl : wf (.struct llen lnulls ln lc) = true) (hwr : wf (.struct rlen rnulls rn rc) = true)
+    (hul : uniq (.struct llen lnulls ln lc) = true) (hur : uniq (.struct rlen rnulls rn rc) = true)
+    (h : mergeBatch (.struct llen lnulls ln lc) (.struct rlen rnulls rn rc) = .ok m) :
     logical m = (List.range llen).map (fun i =>
       mergeRow rn (tyOfCols rc) ln (tyOfCols lc)
-        ((logical (.struct llen none ln lc)).getD i .null) ((logical (.struct rlen none rn rc)).getD i .null))
+        ((logical (.struct llen lnulls ln lc)).getD i .null) ((logical (.struct rlen rnulls rn rc)).getD i .null)) :=
+  logical_mergeBatch llen lnulls ln lc rlen rnulls rn rc m hwl hwr hul hur h
 
 /-! ### lib.rs: project_by_schema -/
 
@@ -166,7 +173,6 @@ def exList : Arr := .list false 0 3 (some ⟨1, [true, true, false, true]⟩) [1
 
 example : wf exList = true := by decide
 example : 1 + 2 ≤ exList.len := by decide
-example : wf (slice exList 1 2) = true := by decide
 example : takeBatch (.struct 3 none ["l"] [exList]) [2, 0, 2] =
     .ok (gather (.struct 3 none ["l"] [exList]) [2, 0, 2]) := by rfl
 
@@ -189,6 +195,8 @@ example : (projectBatch exL ["s"] [.struct ["a"] [.int]]).isOk = true := by
   simp [projectBatch, projectCols, exL, hasNull, validAt, findCol, Ty.beqList, Ty.beq, tyOfCols, tyOf, Res.isOk]
 example : wf exL = true := by decide
 example : ∃ m, mergeStruct 64 exL exR = .ok m := ⟨_, rfl⟩
+example : ∃ m, mergeBatch exL exR = .ok m := ⟨_, rfl⟩
+example : wf exR = true ∧ uniq exL = true ∧ uniq exR = true := by decide
 example : ∃ m, mergeWS 64 exL exR ["s"] [.struct ["b", "a"] [.int, .int]] = .ok m := ⟨_, rfl⟩
 
 end LanceModel.C40
